@@ -123,6 +123,7 @@ private:
   void ensure_space(uint32_t num);
 
   static uint32_t nearest_even(float value);
+  static void check_sections(float section_size_raw, uint8_t num_sections);
   static void check_num_items(uint32_t num_items, uint64_t max_num_items);
 
   template<typename InIter, typename OutIter>
